@@ -407,18 +407,30 @@ class Interp:
             self.frames.pop()
 
     def bind_args(self, a, args, kwargs, env, defenv, fname):
-        if a.posonlyargs or a.kwonlyargs and any(d is None for d in a.kw_defaults):
-            pass
-        params = [p.arg for p in a.args]
+        posonly = [p.arg for p in a.posonlyargs]
+        params = posonly + [p.arg for p in a.args]
         args = list(args)
         kwargs = dict(kwargs)
+        # keyword names that are symbolic strings (from **{name: value}): such a key may
+        # coincide with a parameter name - Python then binds that parameter, or raises
+        # TypeError "got multiple values" if it was already bound positionally
+        for key in [k for k in kwargs if isinstance(k, SName)]:
+            for idx, p in enumerate(params + [q.arg for q in a.kwonlyargs]):
+                if p in posonly:
+                    continue            # positional-only names never collide with keywords
+                if self.path.branch(key.term == sym.literal_name(p), f"kwarg-name-is-{p}"):
+                    val = kwargs.pop(key)
+                    if p in kwargs or (p in params and params.index(p) < len(args)):
+                        raise Raise(self.bi.make_exc("TypeError", f"{fname}() got multiple values for argument '{p}'"), fname)
+                    kwargs[p] = val
+                    break
         ndef = len(a.defaults)
         for idx, p in enumerate(params):
             if idx < len(args):
-                if p in kwargs:
+                if p in kwargs and p not in posonly:
                     raise Raise(self.bi.make_exc("TypeError", f"multiple values for {p}"), fname)
                 env.vars[p] = args[idx]
-            elif p in kwargs:
+            elif p in kwargs and p not in posonly:
                 env.vars[p] = kwargs.pop(p)
             else:
                 didx = idx - (len(params) - ndef)
@@ -483,6 +495,12 @@ class Interp:
     def st_AugAssign(self, st, env):
         cur = self.eval(ast.copy_location(self._as_load(st.target), st), env)
         rhs = self.eval(st.value, env)
+        if isinstance(st.op, ast.BitOr) and isinstance(cur, SSet) and isinstance(rhs, SSet):
+            # set |= set updates the SAME set object in place
+            self.heap_log.append(("mutate-set", id(cur), "|=", self.where()))
+            cur.term = sym.union(cur.term, rhs.term)
+            self.assign(st.target, cur, env)
+            return
         if isinstance(st.op, ast.Add) and isinstance(cur, list) and not isinstance(cur, GeneratorList):
             # list += iterable extends the SAME list object in place
             self.heap_log.append(("mutate-list", id(cur), "+=", self.where()))
@@ -740,9 +758,20 @@ class Interp:
             if isinstance(v, ast.Constant):
                 parts.append(v.value)
             elif isinstance(v, ast.FormattedValue):
-                if v.format_spec is not None or v.conversion not in (-1,):
-                    raise Unsupported("format spec / conversion in f-string")
-                parts.append(self.bi.to_str(self.eval(v.value, env)))
+                val = self.eval(v.value, env)
+                spec = None
+                if v.format_spec is not None:
+                    if not all(isinstance(x, ast.Constant) for x in v.format_spec.values):
+                        raise Unsupported("computed format spec in f-string")
+                    spec = "".join(x.value for x in v.format_spec.values)
+                if v.conversion not in (-1, ord("r"), ord("s")):
+                    raise Unsupported("conversion in f-string")
+                piece = self.bi.to_str(val)
+                if spec and is_num(val):
+                    # a formatted number: exact only for the round-trip formats
+                    if spec not in (".17g", "r"):
+                        piece = SStr([("numfmt", val, spec)])
+                parts.append(piece)
             else:
                 raise Unsupported("f-string piece")
         return str_concat(*parts)
